@@ -171,6 +171,51 @@ func runC01(c *ctx, r *Report) error {
 						break
 					}
 				}
+				// the same with the anchor on a null, a mapping and a sequence (planted as the value of an extra first key of the
+				// document): the bare alias at this position
+				if top := m.Content[0]; top.Kind == yaml.MappingNode {
+					for _, tn := range []*yaml.Node{
+						{Kind: yaml.ScalarNode, Tag: "!!null", Value: "~"},
+						{Kind: yaml.MappingNode, Tag: "!!map", Content: []*yaml.Node{{Kind: yaml.ScalarNode, Tag: "!!str", Value: "a"}, {Kind: yaml.ScalarNode, Tag: "!!str", Value: "b"}}},
+						{Kind: yaml.SequenceNode, Tag: "!!seq", Content: []*yaml.Node{{Kind: yaml.ScalarNode, Tag: "!!str", Value: "a"}}},
+					} {
+						m2 := cloneNode(rootNode)
+						top2 := m2.Content[0]
+						target := cloneNode(tn)
+						target.Anchor = "anc"
+						// the path of the position shifts by the planted pair when it goes through the top mapping
+						p2 := append(ypath{}, v.path...)
+						if len(p2) >= 2 {
+							p2[1] += 2
+						}
+						top2.Content = append([]*yaml.Node{{Kind: yaml.ScalarNode, Tag: "!!str", Value: "zz-anchor"}, target}, top2.Content...)
+						par := nodeAt(m2, p2[:len(p2)-1])
+						if par == nil || p2[len(p2)-1] >= len(par.Content) {
+							continue
+						}
+						par.Content[p2[len(p2)-1]] = &yaml.Node{Kind: yaml.AliasNode, Alias: target, Value: "anc"}
+						src, err := emitYAML(m2)
+						if err != nil {
+							continue
+						}
+						what := "alias to an anchored " + tn.Tag + " at " + strings.Join(v.keys, ".")
+						r.Evaluations++
+						r.nontrivial(tg.channel + what)
+						r.hist("alias-target:" + tn.Tag)
+						if tg.rel == "" {
+							_, _, pmsg, to := lintGuarded("w.yaml", src)
+							if pmsg != "" || to {
+								report(tg.channel, what, src, pmsg, to)
+							}
+						} else {
+							write(tg.rel, src)
+							pmsg, to, _ := lintProject()
+							if pmsg != "" || to {
+								report(tg.channel, what, src, pmsg, to)
+							}
+						}
+					}
+				}
 				if first != nil && nodeAt(m, v.path) != first {
 					first.Anchor = "anc"
 					parent := nodeAt(m, v.path[:len(v.path)-1])
